@@ -258,6 +258,12 @@ def run_case(prop, name, spec, confkw, tier, src):
                                          'detail': 'wrapper counts differ', 'hint': name, 'confkw': confkw})
                     continue
                 for k, (wa, wb) in enumerate(zip(ra, rb)):
+                    ca, cb = wa.scope.get('__beartype_conf'), wb.scope.get('__beartype_conf')
+                    if ca is not cb:
+                        out.findings.append({'kind': 'c13_side', 'program': mname,
+                                             'label': f'{mname}[{k}]: the wrapper generated by class decoration carries configuration {ca!r}, the {route} route {cb!r}',
+                                             'replay': write_replay('C13', {'property': 'C13', 'kind': 'c13', 'hint': dict(src, route=route), 'confkw': confkw, 'program': 'side'}),
+                                             'detail': 'configuration objects differ', 'hint': name, 'confkw': confkw})
                     ga, gb = Generated(), Generated()
                     for g, w in ((ga, wa), (gb, wb)):
                         g.hint, g.confkw, g.wrapper = None, confkw, w
@@ -305,6 +311,17 @@ def concrete_side_conditions(nsA, nsB, A, B, routeB='members'):
         f = w.__func__ if isinstance(w, (classmethod, staticmethod)) else w
         if D(f) is not f:
             P.append(f'decorating the existing wrapper of {nm} again returns a different object')
+    # decorating the already decorated class again under *another* configuration changes nothing either
+    other = BeartypeConf(is_random=False, violation_type=KeyError)
+    funcs_before = {nm: (w.__func__ if isinstance(w, (classmethod, staticmethod)) else w)
+                    for nm, w in K.__dict__.items() if nm in ('plain', 'sm', 'cm', '__init__')}
+    if beartype(conf=other)(K) is not K:
+        P.append('decorating a decorated class under another configuration does not return it')
+    for nm, f0 in funcs_before.items():
+        w = K.__dict__[nm]
+        f1 = w.__func__ if isinstance(w, (classmethod, staticmethod)) else w
+        if f1 is not f0:
+            P.append(f'decorating a decorated class under another configuration re-wrapped {nm}')
     # descriptor kinds
     for ns, route in ((nsA, 'class'), (nsB, routeB)):
         k = ns['K']
@@ -368,6 +385,9 @@ def replay_c13(p):
             if len(A.get(mname, [])) != len(B.get(mname, [])):
                 probs.append(f'{len(A.get(mname, []))} checking wrapper(s) generated for {mname} when decorating the class, '
                              f'{len(B.get(mname, []))} when decorating the {src.get("route", "members")}')
+            for wa, wb in zip(A.get(mname, []), B.get(mname, [])):
+                if wa.scope.get('__beartype_conf') is not wb.scope.get('__beartype_conf'):
+                    probs.append(f'{mname}: the two routes carry different configuration objects')
         return bool(probs), '; '.join(probs) or 'all side conditions hold'
     m = src['member']
 
